@@ -68,6 +68,14 @@ def regenerate(res):
         res.broken.append("translator T9 (rfread2gallina) rejects the current _read: %s" % e)
         return
     common.write_if_changed(os.path.join(common.COQ, "Gen", "RfReadGen.v"), text)
+    import bounds2gallina
+    try:
+        text = bounds2gallina.translate(common.REPO)
+    except c2gallina.Unsupported as e:
+        res.broken.append("translator T16 (bounds2gallina) rejects the current _get_first_sample / _get_last_sample: %s" % e)
+        return
+    common.write_if_changed(os.path.join(common.COQ, "Gen", "BoundsGen.v"), text)
+
 
 def cdiv(a, b):
     return -((-a) // b)
